@@ -177,7 +177,7 @@ func (v *Vue) evalBoundAttribute(ctx VueContext, attrName, expr string) (any, er
 	}
 	// Not a path into the data: it may still be an expression without spaced
 	// operators (a literal, !flag, n>3), as accepted by v-if
-	if res, err := v.exprEval.Eval(expr, ctx.stack.EnvMap()); err == nil && res != nil {
+	if res, err := v.exprEval.Eval(expr, v.exprEnv(ctx, expr)); err == nil && res != nil {
 		return res, nil
 	}
 	return "", nil
@@ -243,7 +243,7 @@ func (v *Vue) parseObjectPairs(ctx VueContext, content string) []objectPair {
 		valueExpr := strings.TrimSpace(item[colonIdx+1:])
 
 		// Try to resolve as expression first (handles literals and expressions)
-		val, err := v.exprEval.Eval(valueExpr, ctx.stack.EnvMap())
+		val, err := v.exprEval.Eval(valueExpr, v.exprEnv(ctx, valueExpr))
 		if err != nil {
 			// Fall back to stack resolution for variable references;
 			// an undefined variable contributes nothing: falsy for class, omitted for style
